@@ -94,15 +94,21 @@ func (p *principalInstance) doIntentRequestChecks(i Intent) error {
 
 	if !p.targetConnected {
 		logrus.Info("principal: not connected to target")
+		// checkErr remembers a refusal by the principal so that exactly one
+		// denial is sent for it, whatever the set-up function does with the error
+		var checkErr error
 		checkIntentWithCert := func(cert *certs.Certificate) error {
 			p.targetCert = cert
-			err := p.checkIntent(i, cert)
-			if err != nil {
-				WriteIntentDenied(p.delegateConn, err.Error())
-			}
-			return err
+			checkErr = p.checkIntent(i, cert)
+			return checkErr
 		}
 		tc, err := p.setUpTargetConn(targURL, checkIntentWithCert)
+		if checkErr != nil {
+			if tc != nil {
+				tc.Close()
+			}
+			return WriteIntentDenied(p.delegateConn, checkErr.Error())
+		}
 		if err != nil {
 			logrus.Info("principal: error setting up target connection")
 			return WriteIntentDenied(p.delegateConn, fmt.Sprintf("principal: target setup failed: %s", err))
@@ -111,8 +117,9 @@ func (p *principalInstance) doIntentRequestChecks(i Intent) error {
 		p.targetInfo = targURL
 		p.targetConnected = true
 		logrus.Info("principal: connected to target")
-	} else {
-		p.checkIntent(i, p.targetCert)
+	} else if err := p.checkIntent(i, p.targetCert); err != nil {
+		// every request needs the principal's approval, not only the first
+		return WriteIntentDenied(p.delegateConn, err.Error())
 	}
 
 	err := WriteIntentCommunication(p.targetConn, i)
